@@ -16,7 +16,7 @@ use simcore::runner::{self, panic_message, Stats, Violation, WorkerCtx};
 
 const SCENARIO: &str = "S-ARB";
 const SCENARIO_ID: u64 = 9;
-const HANG_LIMIT: Duration = Duration::from_secs(10);
+const HANG_LIMIT: Duration = Duration::from_secs(20);
 
 // ---------------------------------------------------------------------------- source swarm
 
